@@ -81,6 +81,47 @@ def effective_priority_rule (ctx, repo, clause):
          "wildcarded -> %s, exact -> %s" % ([norm(v) for v in rw], exact) if good else
          "effective priority is %s for a wildcarded entry and %s for an exact one: it must be the entry's own priority resp. a constant above 0xffff" % ([norm(v) for v in rw], [norm(v) for v in rx]), ep, clause)
 
+  # ... and `is_exact` / `is_wildcarded` of ofp_match, which that function relies on, are complementary and look at *every* wildcard
+  # bit - evaluated on sample matches: nothing wildcarded; one single-bit field wildcarded; every field given but nw_src only as a /24
+  lof_ = repo.mod(LOF); m_ = repo.cls(LOF, 'ofp_match')
+  md_ = lof_.assigns.get('ofp_match_data')
+  fields_ = [k.value for k in md_.keys] if isinstance(md_, ast.Dict) else []
+  sh_ = ofreg.const_value(repo, lof_, 'OFPFW_NW_SRC_SHIFT'); inport_ = ofreg.const_value(repo, lof_, 'OFPFW_IN_PORT')
+  class GA(object):
+    wants_env = True
+    def __call__ (self, call, env):
+      if call_name(call) == 'getattr' and len(call.args) >= 2 and norm(call.args[0]) == 'self':
+        try: nm_ = q.eval_env2(repo, lof_, call.args[1], env, m_)
+        except Exception: return (False, None)
+        if isinstance(nm_, str) and ('self.' + nm_) in env.exact: return (True, env.exact['self.' + nm_])
+      return (False, None)
+  def prop (name, wild):
+    f_ = m_.methods.get(name)
+    if f_ is None: return '?'
+    g_ = q.cfg_of(f_); ex = {'self.wildcards': wild, 'self._wildcards': wild}
+    for fl in fields_: ex['self.' + fl] = 1; ex['self._' + fl] = 1
+    other = 'is_exact' if name == 'is_wildcarded' else 'is_wildcarded'
+    outs = set()
+    for ov in ((None,) if name == 'is_wildcarded' else (None,)):
+      ms = []
+      if name == 'is_exact':
+        w_ = prop('is_wildcarded', wild)
+        if w_ in (True, False): ms = [((lambda e: isinstance(e, ast.Attribute) and e.attr == 'is_wildcarded' and norm(e.value) == 'self'), w_)]
+      for p_, e_ in q.paths_under(repo, lof_, g_, q.Env(dict(ex), ms, GA()), g_.entry, [n for n in g_.nodes if n.kind == 'return'], m_, limit=20):
+        try: outs.add(bool(q.eval_env2(repo, lof_, p_[-1].ast.value, e_, m_)))
+        except Exception: outs.add('?')
+    return list(outs)[0] if len(outs) == 1 else '?'
+  if isinstance(sh_, int) and isinstance(inport_, int) and fields_:
+    samples = [("nothing wildcarded", 0, False), ("in_port wildcarded", inport_, True), ("every field given, nw_src as a /24 prefix", 8 << sh_, True)]
+    got = [(d_, prop('is_wildcarded', w_), prop('is_exact', w_), want_) for d_, w_, want_ in samples]
+    if any(a_ == '?' or b_ == '?' for d_, a_, b_, w_ in got):
+      ctx.undecided('R-AGREE', m_.qual + '.is_exact', "is_exact / is_wildcarded are complementary and see partial IP prefixes", "not evaluable on the sample matches: %s" % [(d_, a_, b_) for d_, a_, b_, w_ in got], m_, clause)
+    else:
+      bad_ = [(d_, a_, b_) for d_, a_, b_, w_ in got if a_ != w_ or b_ == w_]
+      ctx.ob('R-AGREE', m_.qual + '.is_exact', "is_exact / is_wildcarded are complementary and see partial IP prefixes", not bad_, "3 sample matches" if not bad_ else
+             "for %s: is_wildcarded=%s, is_exact=%s - an entry that still wildcards part of an address counts as exact, gets the 'infinite' effective priority and outranks higher-priority wildcarded entries"
+             % bad_[0], m_.methods.get('is_exact') or m_, clause)
+
 def run (ctx):
   ctx.explanation = EXPLAIN
   ctx.assumptions = ["ofp_match exposes fields through __getattr__ (None when wildcarded)"]
